@@ -14,7 +14,7 @@ typedef struct {
 	long draws;              /* number of getentropy calls so far */
 	long fail_at;            /* draw index that fails (-1 = never); fail_from: every draw >= index fails */
 	long fail_from;
-	size_t bytes;
+	size_t bytes; int failed;   /* number of failures delivered */
 	/* log of draws (first VENV_LOG calls): offset into logbuf + length */
 	uint8_t logbuf[8192]; size_t loglen;
 	struct { uint16_t off, len; } log[256]; int nlog;
@@ -27,6 +27,7 @@ void venv_fail_at(long idx);
 void venv_fail_from(long idx);
 void venv_set_time(time_t t);
 time_t venv_get_time(void);
-extern __thread int venv_in_ref;              /* set while inside a reference (OpenSSL) call: real entropy, not logged */
+extern __thread int venv_in_ref;
+extern void (*venv_fail_hook)(void);              /* set while inside a reference (OpenSSL) call: real entropy, not logged */
 #define VENV_NOW 1790000000  /* fixed harness clock: 2026-09-21 */
 #endif
